@@ -1,10 +1,12 @@
 (* C17 -- Streaming outputs deliver the producer's bytes through a FIFO and leave no trace.
-   Model: Stream -- one producer / consumer pair connected by a named pipe (rendez-vous open, bounded buffer), both tasks
+   Model: Stream -- a producer / consumer pair connected by a named pipe (rendez-vous open, bounded buffer), both tasks
    needing a slot, the producer's audit record set on the shared IP after it exits, the pipe removed by the producer's
-   process after the task is done.  Quantifiers: every payload, pipe capacity, slot count, schedule. *)
+   process after the task is done; the consumer either executes, or -- on a re-run, its output being on disk -- is skipped
+   and drains the pipe.  StreamN -- any number of such pairs sharing the workflow's slot counter.
+   Quantifiers: every number of pairs, every payload, pipe capacity and mode per pair, slot count, schedule. *)
 From Coq Require Import List Arith Lia Bool String.
 Import ListNotations.
-From SP Require Import Skel Gen Expected Stream StreamLive.
+From SP Require Import Skel Gen Expected Stream StreamLive StreamN.
 
 (* T1: the FIFO is created and forwarded before the task is spawned, removed after the task's Done; a skipped task
    drains the FIFOs of its streaming inputs *)
@@ -18,16 +20,16 @@ Theorem C17_code_conforms :
   && skel_eqb skel_FinalizePaths exp_FinalizePaths = true.
 Proof. vm_compute. reflexivity. Qed.
 
-(* whatever the schedule, the payload size and the pipe capacity: a consumer that has finished has finalized exactly
-   and completely the bytes the producer wrote *)
+(* whatever the schedule, the payload size and the pipe capacity: a consumer that has executed and finished has finalized
+   exactly and completely the bytes the producer wrote *)
 Theorem C17_bytes : forall (c : cfg) (l : list act) (s : st),
-  run c (init c) l = Some s -> cp s = CDone -> outfile s = Some (payload c).
+  skip c = false -> run c (init c) l = Some s -> cp s = CDone -> outfile s = Some (payload c).
 Proof. exact Stream.C17_bytes. Qed.
 
-(* every execution completes: with at least two slots (the property's guard: >= 2n for n streamed items) and a pipe of
-   capacity >= 1, no reachable state is stuck before both tasks are done and the pipe is removed ... *)
+(* every execution completes: with a slot for the producer and one for the executing consumer (the property's guard) and
+   a pipe of capacity >= 1, no reachable state is stuck before both tasks are done and the pipe is removed ... *)
 Theorem C17_progress : forall (c : cfg) (l : list act) (s : st),
-  2 <= slots c -> 1 <= pipecap c ->
+  (if skip c then 1 else 2) <= slots c -> 1 <= pipecap c ->
   run c (init c) l = Some s -> fifo s = true \/ pp s <> PDone \/ cp s <> CDone ->
   exists a, step c s a <> None.
 Proof. exact StreamLive.stream_progress. Qed.
@@ -36,6 +38,58 @@ Proof. exact StreamLive.stream_progress. Qed.
 Theorem C17_terminates : forall (c : cfg) (s : st) (a : act) (s' : st),
   step c s a = Some s' -> measure c s' < measure c s.
 Proof. exact StreamLive.stream_step_decreases. Qed.
+
+(* re-running the workflow after it completed: the consumer's output is on disk, its task is skipped and drains the pipe;
+   the run terminates (C17_progress and C17_terminates cover this mode: skip c = true), the consumer's output keeps its
+   content in every reachable state, and what was drained is exactly what the re-executed producer wrote *)
+Theorem C17_rerun_untouched : forall (c : cfg) (l : list act) (s : st),
+  skip c = true -> run c (init c) l = Some s -> outfile s = Some (old c).
+Proof. exact Stream.rerun_untouched. Qed.
+
+Theorem C17_rerun_drained : forall (c : cfg) (l : list act) (s : st),
+  skip c = true -> run c (init c) l = Some s -> cp s = CDone -> got s = payload c /\ buf s = [].
+Proof. exact Stream.rerun_drained. Qed.
+
+(* ---- any number of pairs sharing the task slots ("whenever enough task slots exist for each producer and its consumer
+   to run at the same time"): total demand = one slot per producer plus one per executing consumer ---- *)
+Theorem C17_pairs_bytes : forall (g : gcfg) (l : list (nat * act)) (s : gst) (i : nat) (c : cfg) (p : st),
+  grun g (ginit g) l = Some s -> nth_error (cfgs g) i = Some c -> nth_error (pairs s) i = Some p ->
+  skip c = false -> cp p = CDone -> outfile p = Some (payload c).
+Proof. exact StreamN.pairs_bytes. Qed.
+
+Theorem C17_pairs_rerun_untouched : forall (g : gcfg) (l : list (nat * act)) (s : gst) (i : nat) (c : cfg) (p : st),
+  grun g (ginit g) l = Some s -> nth_error (cfgs g) i = Some c -> nth_error (pairs s) i = Some p ->
+  skip c = true -> outfile p = Some (old c).
+Proof. exact StreamN.pairs_rerun_untouched. Qed.
+
+(* no reachable state is stuck while any pair is unfinished: the unfinished pair itself can move *)
+Theorem C17_pairs_progress : forall (g : gcfg) (l : list (nat * act)) (s : gst) (i : nat) (p : st),
+  total_demand g <= gslots g -> Forall (fun c => 1 <= pipecap c) (cfgs g) ->
+  grun g (ginit g) l = Some s -> nth_error (pairs s) i = Some p -> unfinished p ->
+  exists a, gstep g s (i, a) <> None.
+Proof. exact StreamN.pairs_progress. Qed.
+
+Theorem C17_pairs_terminate : forall (g : gcfg) (s : gst) (ia : nat * act) (s' : gst),
+  gstep g s ia = Some s' -> gmeasure (cfgs g) (pairs s') < gmeasure (cfgs g) (pairs s).
+Proof. exact StreamN.pairs_terminate. Qed.
+
+(* non-vacuity: an executing pair and a skipped-and-draining pair on three slots, interleaved to completion *)
+Theorem C17_pairs_example :
+  total_demand g2 <= gslots g2 /\
+  match grun g2 (ginit g2) sched2 with
+  | Some s => map outfile (pairs s) = [Some [1;2;3]; Some [9]] /\ map fifo (pairs s) = [false; false] /\ gtok s = 0
+              /\ map cp (pairs s) = [CDone; CDone]
+  | None => False
+  end.
+Proof. exact StreamN.pairs_example. Qed.
+
+(* the guard is necessary for several pairs too: two executing pairs on two slots deadlock *)
+Theorem C17_pairs_too_few_slots_refuted :
+  match grun g3 (ginit g3) [(0, AForward); (1, AForward); (0, PAcquire); (1, PAcquire)] with
+  | Some s => gstuck g3 s = true /\ map cp (pairs s) = [CWaitSlot; CWaitSlot]
+  | None => False
+  end.
+Proof. exact StreamN.pairs_too_few_slots_refuted. Qed.
 
 (* non-vacuity and the "no trace" part on a complete run: payload longer than the pipe, two slots; at the end both are
    done, the pipe is removed, all slots are free *)
@@ -66,6 +120,14 @@ Print Assumptions C17_code_conforms.
 Print Assumptions C17_bytes.
 Print Assumptions C17_progress.
 Print Assumptions C17_terminates.
+Print Assumptions C17_rerun_untouched.
+Print Assumptions C17_rerun_drained.
+Print Assumptions C17_pairs_bytes.
+Print Assumptions C17_pairs_rerun_untouched.
+Print Assumptions C17_pairs_progress.
+Print Assumptions C17_pairs_terminate.
+Print Assumptions C17_pairs_example.
+Print Assumptions C17_pairs_too_few_slots_refuted.
 Print Assumptions C17_run_ok.
 Print Assumptions C17_one_slot_refuted.
 Print Assumptions C17_audit_race_refuted.
